@@ -162,13 +162,17 @@ theorem C02_append_send (c : Ctx) (hc : CalleeOK c.callee) (a : String) (vs : Li
       cases hsp : spreadArgs sp ws with
       | none => simp
       | some xs =>
-        cases hap : appendVals av xs <;> simp [spreadVals, setAll, ha]
+        cases hap : appendVals av xs <;> simp [hap, spreadVals, setAll, ha]
     | panic v t => simp
     | ret vs2 e1 t => simp
     | timeout t => simp
     | stuck => simp
 
 /-! ## the lowered term is MiniGo -/
+
+theorem isGoSs_append : ∀ (a b : List Stmt), isGoSs (a ++ b) = (isGoSs a && isGoSs b)
+  | [], b => by simp [isGoSs]
+  | s :: a, b => by simp [isGoSs, isGoSs_append a b, Bool.and_assoc]
 
 mutual
 theorem lowerX_isGo (fn : String) : ∀ (e : Expr), e.src = true → (lowerX fn e).isGo = true
